@@ -9,6 +9,7 @@ package hnet
 import (
 	"errors"
 	"fmt"
+	"strings"
 	"math/big"
 	"os"
 	"sync"
@@ -236,6 +237,8 @@ type Net struct {
 	Tips [3]*types.WorkObject
 	// GenesisKicks counts how often New had to restart the genesis pending-header hand-down
 	GenesisKicks int
+	// AppendRetries counts re-deliveries after a transient append error (see submit)
+	AppendRetries int
 	// StaleTemplates counts sealed headers the node refused with ErrBodyNotFound (template replaced meanwhile)
 	StaleTemplates int
 }
@@ -769,6 +772,18 @@ func (n *Net) submit(wo *types.WorkObject, order int, noAppend bool) (*Mined, er
 		return m, nil
 	}
 	etxs, err := n.Deliver(order, m.Blocks)
+	// A dominant chain that does not yet hold a subordinate block's pending ETXs refuses the coincident
+	// block with a transient error and keeps it in its append queue; every retry bumps a counter and after
+	// c_pEtxRetryThreshold (10) failed appends it fetches the data from the subordinate chain itself. The
+	// harness has no append queue: it re-delivers, as the queue would, unless the check is deliberately
+	// holding those messages back (fault injection), in which case the refusal is what the check wants to see.
+	n.mu.Lock()
+	holding := n.HoldPendingEtxs != 0 || len(n.held) > 0 || len(n.heldRollups) > 0
+	n.mu.Unlock()
+	for try := 0; err != nil && !holding && transientAppendError(err) && try < 40; try++ {
+		n.AppendRetries++
+		etxs, err = n.Deliver(order, m.Blocks)
+	}
 	m.AppendErr = err
 	m.Etxs = etxs
 	n.mu.Lock()
@@ -785,6 +800,12 @@ func (n *Net) submit(wo *types.WorkObject, order int, noAppend bool) (*Mined, er
 		}
 	}
 	return m, nil
+}
+
+// transientAppendError: the errors Core.InsertChain turns into "block stays in the append queue".
+func transientAppendError(err error) bool {
+	return errors.Is(err, core.ErrSubNotSyncedToDom) || errors.Is(err, core.ErrPendingEtxNotFound) || errors.Is(err, core.ErrPendingEtxRollupNotFound) ||
+		strings.Contains(err.Error(), core.ErrSubNotSyncedToDom.Error()) || strings.Contains(err.Error(), core.ErrPendingEtxNotFound.Error())
 }
 
 // MineN mines k blocks on the current heads with natural orders.
